@@ -47,6 +47,7 @@ namespace bxdecay0 {
   // - Updated from decay0_2018-12-05
   void Sm148low(i_random & prng_, event & event_, const int levelkev_)
   {
+    BXDECAY0_VERIF_SCOPE("scheme:Sm148low", levelkev_);
     // double t;
     double tdlev;
     double p;
